@@ -103,7 +103,7 @@ def run(tier, seed):
         st["srv"]["reply"]["sel"] = [1, 0, 0, 0]
         st["srv"]["activations"] = 1
         plans.append(st)
-        trace, blobs, decoded, dec = conn.run_plans(wd, plans, "c03")
+        trace, blobs, decoded, dec = conn.run_plans(wd, plans, "c03", v=v, key="conn:abort")
         accepted, rejects = core.tv_all("Trace_Rdp", trace, decoded, wd, shards=8, max_rejects=6, overrides=True)
         for r in rejects:
             key, text = conn.classify_reject(r, dec)
